@@ -3289,6 +3289,74 @@ example : ∃ vspan lspan unitT sep,
     (FillerIn.ins _ _ _ _ (by simp) rfl C17_exFiller_pad) true none none trivial {}
     ⟨[], 0, ⟨Gen.EXT_ADVANCED_UNITS⟩, toyCharSpec, #[], none⟩ (by decide) (by decide) (by decide) (by intro _; decide)
     (lex toyCharSpec "=a [- c -] few".toList) a1 a2.base
+
+/-! non-vacuity of the multi-insertion constructor `FillerIn.more` (wave 10), recipe level: TWO comments in one name
+    and two in one text value: `Add @extra [- c -] virgin [- c -] oil{a [- c -] very [- c -] few%cups} now⏎` against
+    `Add @extra virgin oil{a very few%cups} now⏎` -/
+def C17_w10Sp : Tok := tk .ws [' ']
+def C17_w10TwoF : AComp :=
+  { name := [tk .word "extra".toList, C17_w10Sp] ++ C17_exFillerTok ++ [tk .word "virgin".toList] ++ C17_w10Sp :: (C17_exFillerTok ++ [tk .word "oil".toList]),
+    qty := some { val := .text ([tk .word "a".toList, C17_w10Sp] ++ C17_exFillerTok ++ [tk .word "very".toList] ++ C17_w10Sp :: (C17_exFillerTok ++ [tk .word "few".toList])),
+                  unit := some [tk .word "cups".toList] } }
+def C17_w10Two : AComp :=
+  { name := [tk .word "extra".toList, C17_w10Sp, tk .word "virgin".toList, C17_w10Sp, tk .word "oil".toList],
+    qty := some { val := .text [tk .word "a".toList, C17_w10Sp, tk .word "very".toList, C17_w10Sp, tk .word "few".toList],
+                  unit := some [tk .word "cups".toList] } }
+
+theorem C17_w10TwoFillerIn (a b c : Tok) :
+    FillerIn ([a, C17_w10Sp] ++ C17_exFillerTok ++ [b] ++ C17_w10Sp :: (C17_exFillerTok ++ [c])) [a, C17_w10Sp, b, C17_w10Sp, c] :=
+  FillerIn.more ([a, C17_w10Sp] ++ C17_exFillerTok ++ [b]) C17_w10Sp C17_exFillerTok [c] _
+    (FillerIn.ins [a] C17_w10Sp C17_exFillerTok [b, C17_w10Sp, c] (by simp) rfl C17_exFiller_pad)
+    (by simp) rfl C17_exFiller_pad
+
+theorem C17_w10TwoFiller : CompFiller C17_w10TwoF C17_w10Two :=
+  ⟨rfl, C17_w10TwoFillerIn _ _ _, trivial, trivial, ⟨rfl, ValFiller.text _ _ (C17_w10TwoFillerIn _ _ _), FillerIn.same _⟩⟩
+
+def C17_w10DocTwoF : List (DocItemF × List Tok) :=
+  [(.stepF [.x (.text [tk .word "Add".toList, tk .ws [' ']]), .ingredient C17_w10TwoF C17_w10Two {},
+            .x (.text [tk .ws [' '], tk .word "now".toList])], [tk .newline ['\n']])]
+def C17_w10DocTwo : List (DocItem × List Tok) :=
+  [(.step [.text [tk .word "Add".toList, tk .ws [' ']], .ingredient C17_w10Two {},
+           .text [tk .ws [' '], tk .word "now".toList]], [tk .newline ['\n']])]
+
+example : render ([] ++ docSpecF C17_w10DocTwoF) =
+      "Add @extra [- c -] virgin [- c -] oil{a [- c -] very [- c -] few%cups} now\n".toList ∧
+    render ([] ++ docSpec C17_w10DocTwo) = "Add @extra virgin oil{a very few%cups} now\n".toList := by decide
+
+theorem C17_w10DocTwo_wf : DocWF Rat C17_toyEnv [] C17_w10DocTwo := by
+  have h1 : (∀ d ∈ C17_w10DocTwo, d.1.ok C17_toyEnv.cs C17_toyEnv.ext = true) ∧ (∀ d ∈ C17_w10DocTwo, d.1.simple = true) ∧
+      sepsOK (C17_w10DocTwo.map (·.2)) = true ∧ WellSpelled C17_toyEnv.cs ([] ++ docSpec C17_w10DocTwo) ∧
+      (parseFrontmatter C17_toyEnv.cs (render ([] ++ docSpec C17_w10DocTwo))).isNone = true := by decide
+  obtain ⟨a, b, c, d, e⟩ := h1
+  refine ⟨by decide, a, b, ?_, ?_, c, d, by simpa using e⟩
+  · intro x hx
+    simp only [C17_w10DocTwo, List.mem_cons, List.not_mem_nil, or_false] at hx
+    subst hx; trivial
+  · intro x hx
+    simp only [C17_w10DocTwo, List.mem_cons, List.not_mem_nil, or_false] at hx
+    subst hx
+    intro sg hsg
+    simp only [List.mem_cons, List.not_mem_nil, or_false] at hsg
+    rcases hsg with rfl | rfl | rfl
+    · intro hh; exact absurd hh (by decide)
+    · trivial
+    · intro hh; exact absurd hh (by decide)
+
+example : SameRecipe (α := Rat) (fun c => c = ' ')
+    (parseRecipe C17_toyEnv (render ([] ++ docSpecF C17_w10DocTwoF)))
+    (parseRecipe C17_toyEnv (render ([] ++ docSpec C17_w10DocTwo))) :=
+  C17_filler_in_component_bodies_same_recipe _ C17_toyEnv (by decide) [] [] C17_w10DocTwoF C17_w10DocTwo C17_w10DocTwo_wf rfl
+    (by decide)
+    (by
+      intro d hd
+      simp only [C17_w10DocTwoF, List.mem_cons, List.not_mem_nil, or_false] at hd
+      subst hd
+      refine ⟨⟨show SegX.ok _ _ _ = true by decide, by decide, ⟨C17_w10TwoFiller, by decide, by decide⟩, by decide,
+        show SegX.ok _ _ _ = true by decide, by decide, trivial⟩, by decide, by decide⟩)
+    (by decide) (by decide)
+    (by
+      have : (parseFrontmatter C17_toyEnv.cs (render ([] ++ docSpecF C17_w10DocTwoF))).isNone = true := by decide
+      simpa using this)
 -- ===== end w10c17val =====
 
 end Cook
